@@ -14,3 +14,15 @@ package api
 //@ lemma metafileArray_Less_total C08: forall a metafileArray, i int, j int ::
 //@     0 <= i && i < len(a) && 0 <= j && j < len(a) && !a.Less(i, j) && !a.Less(j, i) ==> a[i].size == a[j].size && a[i].name == a[j].name
 
+
+// ----------------------------------------------------------------------------------------------
+// C17 (F5): effect licences in rebuildImpl (and the goroutine bodies it spawns).
+//  - An output file (or its directory) is written only when writing is enabled, the build does not write
+//    to stdout, and no error had been logged when the decision was taken: the captured cell
+//    shouldWriteFiles is stored exactly once, with !log.HasErrors(), before the writer goroutines are
+//    created, and no goroutine writes it.
+//  - The writer goroutine returns without writing only if writing is disabled or the file on disk already
+//    has byte-identical contents (bytes.Equal of what ReadFile returned for that path and the new contents).
+//  - A file is removed only under the same enabling conditions.
+//@ effect write-output C17: site=call WriteFile | call MkdirAll ; in=api ; root=rebuildImpl ; guard=true:shouldWriteFiles ; spawn-guard=true:args.write,false:args.options.WriteToStdout ; cell=shouldWriteFiles:!call log.HasErrors() ; returns=false:shouldWriteFiles|after:call WriteFile|after:call MkdirAll|true:call Equal(call ReadFile(result.AbsPath)#0,result.Contents)
+//@ effect remove-stale C17: site=call Remove ; in=api ; root=rebuildImpl ; spawn-guard=true:args.write,false:args.options.WriteToStdout
